@@ -943,10 +943,14 @@ class Canon:
         return tuple(_merge_guard_chain(out))
 
     def function(self) -> tuple:
-        blk = self.block(body_without_docstring(self.fi.node))
-        while blk and blk[-1] == ("ret", K_NONE):      # falling off the end is the same return
-            blk = blk[:-1]
-        return blk
+        blk = list(self.block(body_without_docstring(self.fi.node)))
+        # falling off the end is 'return None': with it made explicit, a conditional that ends the function has exiting arms
+        # and gets the guard normal form ('if not c: rest' == 'if c: return' ; rest); the explicit returns are dropped again
+        if not _ends_in_exit(blk):
+            blk.append(("ret", K_NONE))
+        if blk[-1] == ("ret", K_NONE):
+            blk = _tail_returns(blk)
+        return _strip_tail_returns(tuple(blk))
 
     def stmt(self, st: ast.stmt) -> list[S]:
         if isinstance(st, ast.Pass):
@@ -1061,6 +1065,32 @@ _EXITS = ("ret", "raise", "continue", "break")
 
 def _ends_in_exit(block) -> bool:
     return bool(block) and isinstance(block[-1], tuple) and bool(block[-1]) and block[-1][0] in _EXITS
+
+
+def _tail_returns(stmts: list) -> list:
+    """``stmts`` ends with ``return None``; a conditional right before it gets the return in each of its arms"""
+    if len(stmts) >= 2 and isinstance(stmts[-2], tuple) and len(stmts[-2]) == 4 and stmts[-2][0] == "if":
+        _, c, a, b = stmts[-2]
+        a2 = tuple(a) if _ends_in_exit(a) else tuple(_tail_returns(list(a) + [("ret", K_NONE)]))
+        b2 = tuple(b) if _ends_in_exit(b) else tuple(_tail_returns(list(b) + [("ret", K_NONE)]))
+        return _merge_guard_chain(list(stmts[:-2]) + [("if", c, a2, b2)])
+    return stmts
+
+
+def _strip_tail_returns(block: tuple) -> tuple:
+    """drop the ``return None`` statements that end the function (directly, or as the end of the arms of its last conditional)"""
+    block = tuple(block)
+    while block and block[-1] == ("ret", K_NONE):
+        block = block[:-1]
+    if block and isinstance(block[-1], tuple) and len(block[-1]) == 4 and block[-1][0] == "if":
+        _, c, a, b = block[-1]
+        a2, b2 = _strip_tail_returns(a), _strip_tail_returns(b)
+        if not a2 and not b2:
+            return _strip_tail_returns(block[:-1]) if False else block[:-1] + (("expr", c),) if _has_effectful_call(c) else block[:-1]
+        if not a2:
+            return block[:-1] + (("if", mk_not(c), b2, ()),)
+        return block[:-1] + (mk_if(c, a2, b2),)
+    return block
 
 
 def _merge_guard_chain(stmts: list[S]) -> list[S]:
